@@ -469,12 +469,28 @@ def _collecting_loop(init: ast.stmt, loop: ast.stmt) -> ast.stmt | None:
             and isinstance(init.targets[0], ast.Name)
             and isinstance(init.value, ast.List) and not init.value.elts):
         return None
-    if not (isinstance(loop, ast.For) and not loop.orelse
-            and len(loop.body) == 1):
+    if not (isinstance(loop, ast.For) and not loop.orelse and loop.body):
         return None
     x = init.targets[0].id
-    st = loop.body[0]
     conds: list[ast.expr] = []
+
+    def only(block: list[ast.stmt], kind: type) -> bool:
+        return len(block) == 1 and isinstance(block[0], kind)
+    # leading guard clauses: `if C: continue` / `if C: pass else: continue`
+    body = list(loop.body)
+    while len(body) > 1 and isinstance(body[0], ast.If):
+        g = body[0]
+        if only(g.body, ast.Continue) and (
+                not g.orelse or only(g.orelse, ast.Pass)):
+            conds.append(ast.UnaryOp(op=ast.Not(), operand=g.test))
+        elif only(g.orelse, ast.Continue) and only(g.body, ast.Pass):
+            conds.append(g.test)
+        else:
+            return None
+        body = body[1:]
+    if len(body) != 1:
+        return None
+    st = body[0]
     while isinstance(st, ast.If) and len(st.body) == 1 and (
             not st.orelse or (len(st.orelse) == 1 and isinstance(
                 st.orelse[0], ast.Pass))):
@@ -726,6 +742,9 @@ def apply(tree: ast.Module, path: str) -> int:
                 touched = bool(r and dealpha_function(c, r))
                 if dehoist_function(c, known):
                     touched = True
+                    # a collecting loop whose body was `t = e; x.append(t)`
+                    # is a plain collecting loop only now
+                    _canon_collect(c)
                 n += touched
                 visit(c, f'{prefix}{c.name}.')
     visit(tree, '')
